@@ -473,6 +473,8 @@ DynView == [tags |-> [i \in 1..Len(ViewTags(o)) |-> TagView(o, ViewTags(o)[i])],
          syms |-> [i \in 1..mem.n |-> SymView(mem.tab[i])],
          byname |-> [k \in AllIds |-> {i \in 0..(mem.n - 1) : mem.tab[i + 1].nm = k}],
          count |-> [det |-> CountDet(o), n |-> mem.n],
+         \* no DT_RELA / DT_REL / DT_JMPREL / DT_RELR in the array: a reader finds no relocation table
+         relfree |-> \A i \in 1..Len(ViewTags(o)) : ViewTags(o)[i].c \notin {C1(7), C1(17), C1(23), C1(36)},
          \* ld-style empty GNU table: the class of objects on which a reader trusting symoffset alone goes wrong
          cclass |-> IF ~HasG(o) /\ ~HasV(o) THEN "nohash"
                     ELSE IF HasG(o) /\ o.so = mem.n /\ o.ld /\ mem.n > 1 THEN (IF HasV(o) THEN "gnu-empty-ld+sysv" ELSE "gnu-empty-ld")
